@@ -28,6 +28,8 @@ CORPUS = [
     # format string and the parser's group names all use the pattern's own names
     "projects/{project}/types/{type}/formats/{format}", "buckets/{bucket}/objects/{object=**}", "lists/{list}/ranges/{range}~{hash}",
     "{any}/{all}/{next}", "licenses/{license}/{min}-{max}",
+    # variable names that are identifiers but not lower snake case
+    "publishers/{publisherId}/shelves/{Shelf}", "{_id}/{X9}", "orgs/{OrgID}/items/{item_2=**}", "{_}/{__}",
 ]
 
 
@@ -37,7 +39,8 @@ def gen_pattern(r):
     nvars = r.randint(1, 6)
     parts, names = [], []
     pool = ["project", "location", "shelf", "book", "a", "b1", "key_ring", "x", "item_id", "zone", "v", "name2", "org", "folder",
-            "type", "object", "format", "list", "range", "hash", "license", "filter", "max", "id", "input", "set"]
+            "type", "object", "format", "list", "range", "hash", "license", "filter", "max", "id", "input", "set",
+            "publisherId", "Project", "_id", "shelfID", "X9", "topic_2", "_"]
     r.shuffle(pool)
     i = 0
     while i < nvars:
@@ -558,9 +561,10 @@ def run_e2e(ctx, n):
                         except Exception as e:  # noqa
                             ctx.violation(f"service {svc}: emitted parse_{base}_path could not be executed on {built!r}: {type(e).__name__}: {e}", case)
                             break
-                        if keep != kv or d2 != kv or e2 != {}:
+                        em = re.match(p["regex"], "\x00 no such path")
+                        if keep != kv or d2 != kv or e2 != (em.groupdict() if em else {}):
                             ctx.violation(f"service {svc}: parse_{base}_path({built!r}) returned {keep} then, after the caller edited that dict, {d2}; "
-                                          f"a non-matching string parsed to {e2} on the second call", case)
+                                          f"the string '\\x00 no such path' parsed to {e2} on the second call", case)
                             break
                 P = coq.s(pat)
                 checks.append((f"e2e#{i} {svc}.{base}_path args", f"list_eqb String.eqb (args (tokenize {P})) {coq.slist(b['args'])}"))
